@@ -670,8 +670,10 @@ func (t *Transport) handlePendingAltSvc(u *url.URL, pas *pendingAltSvc) {
 					t.Debugf("failed to get http3 connection: %s", err.Error())
 				}
 			} else {
+				pas.Mu.Lock()
 				pas.CurrentIndex = i
 				pas.Transport = t.t3
+				pas.Mu.Unlock()
 				if t.Debugf != nil {
 					t.Debugf("detected that the server %s supports http3, will try to use http3 protocol in subsequent requests", hostname)
 				}
@@ -859,8 +861,10 @@ func (t *Transport) checkAltSvc(req *http.Request) (resp *http.Response, err err
 		return
 	}
 	addr := netutil.AuthorityKey(req.URL)
+	t.pendingAltSvcsMu.Lock()
 	pas, ok := t.pendingAltSvcs[addr]
-	if ok && pas.Transport != nil {
+	t.pendingAltSvcsMu.Unlock()
+	if ok {
 		pas.Mu.Lock()
 		if pas.Transport != nil {
 			pas.LastTime = time.Now()
@@ -875,11 +879,14 @@ func (t *Transport) checkAltSvc(req *http.Request) (resp *http.Response, err err
 				}
 			} else {
 				t.altSvcJar.SetAltSvc(addr, pas.Entries[pas.CurrentIndex])
+				t.pendingAltSvcsMu.Lock()
 				delete(t.pendingAltSvcs, addr)
+				t.pendingAltSvcsMu.Unlock()
 			}
+			pas.Mu.Unlock()
+			return
 		}
 		pas.Mu.Unlock()
-		return
 	}
 	if as := t.altSvcJar.GetAltSvc(addr); as != nil {
 		return t.roundTripAltSvc(req, as)
